@@ -84,11 +84,79 @@ def drive(ppg, op, args=(), kw=None):
     return ret, exc, nw, buf.getvalue()
 
 
+def _tag(a):
+    return a[0] if isinstance(a, tuple) and a and isinstance(a[0], str) else None
+
+
 def as_args(a):
-    """actions carry plain data; lists stay lists, ('arr', rows) becomes an ndarray"""
-    if isinstance(a, tuple) and len(a) == 2 and a[0] == 'arr':
+    """actions carry plain picklable data; lists stay lists, tagged tuples become the container / dtype they name:
+       ('arr', rows)               uint8 ndarray
+       ('tup', seq)                tuple (nested for 2-D)
+       ('np', dtype, seq[, 'ro'])  ndarray of that dtype, optionally write-protected
+       ('nps', dtype, v)           numpy scalar          ('np0', dtype, v)  0-d ndarray
+       ('mix', seq)                list mixing numpy scalars (even positions) and Python numbers (odd positions)
+       ('len', v)                  v itself; marks a Python literal of an undocumented type (float for an int parameter)"""
+    t = _tag(a)
+    if t == 'arr':
         return np.array(a[1], dtype=np.uint8)
+    if t == 'tup':
+        return tuple(tuple(x) if isinstance(x, (list, tuple)) else x for x in a[1])
+    if t == 'np':
+        x = np.array(a[2], dtype=a[1])
+        if len(a) > 3:
+            x.flags.writeable = False
+        return x
+    if t == 'nps':
+        return np.dtype(a[1]).type(a[2])
+    if t == 'np0':
+        return np.array(a[2], dtype=a[1])
+    if t == 'mix':
+        return [((np.int64(x) if isinstance(x, int) else np.float64(x)) if i % 2 == 0 else x) for i, x in enumerate(a[1])]
+    if t == 'len':
+        return a[1]
     return a
+
+
+def plain(a):
+    """what the reference model sees: the requested numbers as Python scalars / (nested) lists, whatever the container
+    or dtype they travel in (a float32 request IS the float32-rounded number)"""
+    t = _tag(a)
+    if t == 'arr':
+        return np.array(a[1], dtype=np.uint8).tolist()
+    if t == 'tup':
+        return [list(x) if isinstance(x, (list, tuple)) else x for x in a[1]]
+    if t == 'np':
+        return np.array(a[2], dtype=a[1]).tolist()
+    if t in ('nps', 'np0'):
+        return np.dtype(a[1]).type(a[2]).item()
+    if t == 'mix':
+        return list(a[1])
+    if t == 'len':
+        return a[1]
+    if isinstance(a, np.ndarray):
+        return a.tolist()
+    if isinstance(a, np.generic):
+        return a.item()
+    return a
+
+
+def lenient_call(op, raw):
+    """argument types the driver does not document (its docstrings: int / float / Array_Like): numpy scalars other than
+    float64 (which IS a Python float), 0-d arrays, bool, bool arrays as values, floats for integer parameters.  The
+    driver documents ValueError for 'not in the correct format'; the statement is silent on them.  For these calls a
+    ValueError/TypeError is tolerated; whatever IS emitted still goes through the monitor and, when the call is accepted,
+    through the full clamp-and-warn model."""
+    for j, a in enumerate(raw):
+        if isinstance(a, bool):
+            return True
+        t = _tag(a)
+        if t in ('np0', 'len'):
+            return True
+        if t == 'nps' and a[1] != 'float64':
+            return True
+        if t == 'np' and a[1] == 'bool' and j == 0 and (op in SETTERS or op == 'set_freq'):
+            return True
+    return False
 
 
 def model_args(op, args):
@@ -115,18 +183,20 @@ def size_class(n):
 
 
 def data_rows(args):
-    """per requested channel the bit row a set_data action writes: args=(data, start, chs)"""
-    data, start, chs = args
+    """per requested channel the bit row a set_data action writes: args=(data, start, chs).  A string may carry the
+    separators str2array documents (blank, comma); a 2-D form gives one row per channel in order (rows and channels are
+    paired; what happens to an unpaired row or channel is not stated)"""
+    data, start, chs = (plain(a) for a in args)
     req, _ = chan_list(chs)
     clipped = [clamp(c, 1, NCH) for c in req][:NCH]
     if isinstance(data, str):
-        rows = [[int(c) for c in data]] * len(clipped)
+        rows = [[int(c) for c in data if c not in ' ,']] * len(clipped)
     else:
-        d = data[1] if (isinstance(data, tuple) and data[0] == 'arr') else data
+        d = data
         if len(d) and isinstance(d[0], (list, tuple)):
-            rows = [list(r) for r in d]
+            rows = [[int(bool(x)) for x in r] for r in d]
         else:
-            rows = [list(d)] * len(clipped)
+            rows = [[int(bool(x)) for x in d]] * len(clipped)
     return clipped, rows
 
 
@@ -135,15 +205,19 @@ def step(fake, ppg, op, args=(), kw=None):
     -> (viol, obs, info)"""
     before = fake.clone()
     n_issue, n_log, n_parsed = len(fake.issues), len(fake.log), len(fake.parsed)
-    call_args = tuple(as_args(a) for a in args)
+    raw = tuple(args)
+    call_args = tuple(as_args(a) for a in raw)
+    args = tuple(plain(a) for a in raw)          # the model works on the requested numbers
+    lenient = lenient_call(op, raw)
     ret, exc, nw, out = drive(ppg, op, call_args, kw)
     viol = list(fake.issues[n_issue:])
     cmds = fake.log[n_log:]
-    sig = f'{op}{tuple(args)!r}'[:200]
+    sig = f'{op}{raw!r}'[:200]
     cls = ''
     if op == 'get_data':
-        cls = ':' + size_class(args[0])
-    if exc:
+        cls = ':' + (size_class(args[0]) if isinstance(args[0], int) else 'size-not-int')
+    tolerated = bool(exc and lenient and exc[0] in ('ValueError', 'TypeError'))
+    if exc and not tolerated:
         extra = ''
         if op == 'get_data' and fake.stats['zero_len_reads']:
             extra = f' [after {fake.stats["zero_len_reads"]} zero-length read(s), last command {cmds[-1] if cmds else None!r}]'
@@ -178,21 +252,24 @@ def step(fake, ppg, op, args=(), kw=None):
         req, ch_oor = chan_list(chs)
         clipped, rows = data_rows(args)
         L = len(rows[0]) if rows else 0
-        keep = min(L, MEM - start + 1)
+        keep = max(0, min(L, MEM - start + 1))
         oor = ch_oor or keep < L
         if not exc:
             writes = {}
             for c, row in zip(clipped, rows):
                 writes.setdefault(c, []).append(np.array(row[:keep], dtype=np.uint8))
+            free = set(clipped[len(rows):]) - set(writes)     # requested channels that no row of a 2-D form is paired with
             blocks = {}
             for kind, c, f in fake.parsed[n_parsed:]:
                 if kind == 'data':
                     blocks.setdefault(c, []).append(f)
-            if sorted(blocks) != sorted(set(clipped)):
-                viol.append(('set_data:wrong-channels', f'{sig}: blocks sent to channels {sorted(blocks)}, expected {sorted(set(clipped))}'))
+            if not (set(writes) <= set(blocks) <= set(writes) | free):
+                viol.append(('set_data:wrong-channels', f'{sig}: blocks sent to channels {sorted(blocks)}, expected {sorted(writes)}'))
             for c, bl in blocks.items():
+                if c not in writes:
+                    continue
                 addr = start
-                for (p, n, k, pl) in bl[:len(bl) // max(1, clipped.count(c))]:
+                for (p, n, k, pl) in bl[:len(bl) // max(1, len(writes[c]))]:
                     if p != addr:
                         viol.append(('set_data:addresses-not-consecutive', f'{sig}: CH{c} block at address {p}, expected {addr}'))
                         break
@@ -201,6 +278,8 @@ def step(fake, ppg, op, args=(), kw=None):
                     if addr != start + keep:
                         viol.append(('set_data:length-not-covered', f'{sig}: CH{c} blocks cover {addr - start} bits, expected {keep}'))
             for c in range(1, NCH + 1):
+                if c in free:
+                    continue
                 ext = fake.extent(c)
                 lo = min(start, ext[0]) if ext else start
                 hi = max(start + keep, ext[1]) if ext else start + keep
@@ -216,10 +295,13 @@ def step(fake, ppg, op, args=(), kw=None):
     elif op == 'get_data':
         size, start = args[0], args[1]
         chs = args[2] if len(args) > 2 else None
-        req, ch_oor = chan_list(chs)
+        req, ch_oor = (chan_list(chs) if not tolerated else ([], False))
         clipped = [clamp(c, 1, NCH) for c in req]
-        keep = min(size, MEM - start + 1)
-        oor = ch_oor or keep < size
+        if not exc:
+            # documented (Warns): an out-of-range start address or size is set "to the nearest value" with a warning
+            start_req, start = start, clamp(start, 1, MEM)
+            keep = clamp(size, 1, MEM - start + 1)
+            oor = ch_oor or keep != size or start != start_req
         if not exc:
             try:
                 n_ret = len(ret)
@@ -244,7 +326,7 @@ def step(fake, ppg, op, args=(), kw=None):
                 viol.append(('get_data:changes-state', f'{sig} changed the instrument state'))
     elif op in GETTERS or op == 'get_freq':
         chs = args[0] if args else None
-        req, oor = chan_list(chs) if op != 'get_freq' else ([], False)
+        req, oor = chan_list(chs) if (op != 'get_freq' and not tolerated) else ([], False)
         if not exc:
             if op == 'get_freq':
                 if ret != before.freq:
@@ -265,7 +347,7 @@ def step(fake, ppg, op, args=(), kw=None):
         raise HarnessBug(f'no model for {op}')
     if oor and not exc and nw == 0:
         viol.append((f'{op}:no-warning', f'{sig}: out-of-range request but no warning was issued'))
-    info = {'oor': oor, 'exc': exc, 'nw': nw, 'cmds': cmds, 'ret': ret, 'stdout': out}
+    info = {'oor': oor, 'exc': exc, 'nw': nw, 'cmds': cmds, 'ret': ret, 'stdout': out, 'lenient': lenient, 'tolerated': tolerated}
     retc = None
     if ret is not None and not isinstance(ret, (bool, str)):
         try:
@@ -316,14 +398,16 @@ def single_case(case):
     have = {k for k, _ in viol}
     viol += [('dry-run:' + k, m) for k, m in dissues if k not in have]
     if dexc:
-        if f'{dexc[1]}:raises-{dexc[0]}' not in have:
+        if f'{dexc[1]}:raises-{dexc[0]}' not in have and not (info['lenient'] and dexc[0] in ('ValueError', 'TypeError')):
             viol.append((f'dry-run:{dexc[1]}:raises-{dexc[0]}', f'dry-run {op}{args!r} raised {dexc[0]}: {dexc[2]}'))
     elif info['oor'] and dnw == 0 and f'{op}:no-warning' not in have:
         viol.append((f'dry-run:{op}:no-warning', f'dry-run {op}{args!r}: out-of-range request but no warning'))
     if not dexc and not info['exc'] and not viol and lines != set_cmds:
         viol.append(('dry-run:stream-differs', f'{op}{args!r}: printed {lines[:4]} but sent {set_cmds[:4]}'))
     observations.append((tuple(lines), dexc[:2] if dexc else None, dnw > 0))
-    nt = info['oor'] or any(isinstance(a, list) for a in args)
+    if _tag(args[0]) == 'np' and args[0][1] in ('float16', 'float32'):      # limits that a narrow float type cannot hold: own key
+        viol = [(k + f'@{args[0][1]}-array' if k.endswith(':register-not-clamped-request') else k, m) for k, m in viol]
+    nt = info['oor'] or any(isinstance(a, list) or _tag(a) for a in args)
     return res(viol=_dedup(viol), obs=tuple(observations), nontrivial=bool(nt),
                stats={'transitions': ntr, 'commands': len(fake.log), 'dry_run_lines': len(lines),
                       'oor_calls': int(info['oor'])})
@@ -339,6 +423,116 @@ def _dedup(viol):
 
 
 CHSEL = [None, 1, 4, 0, 5, -1, [1, 2], [0, 5], [1, 2, 3, 4, 5], [4, 4]]
+# hardening pass: other containers / dtypes of the channel argument, mixed valid+invalid lists, more than 4 entries, empty
+CHSEL_X = [('tup', (1, 2)), ('tup', (0, 5)), ('np', 'int64', [1, 2]), ('np', 'uint8', [0, 5]), ('np', 'int8', [-1, 3]),
+           ('np', 'int32', [4, 3, 2, 1], 'ro'), ('np', 'int64', [0, 5], 'ro'), ('mix', [1, 5]), [1, 7], [0, 1], [3, -2, 9, 2], [2, 2, 2, 2, 2], [7, 1, 1, 1], [],
+           ('nps', 'int64', 2), ('nps', 'int32', 5), ('np0', 'int64', 3), True]
+
+# per setter: 4-vectors (below the lower limit, above the upper limit, lower limit, upper limit) at several distances, the
+# last ones integer-valued / small enough for the narrow integer dtypes
+VECS = {
+    'set_patt_len': [(1, 2 ** 21 + 1, 2, 2 ** 21), (-5, 2 ** 24, 127, 1000), (0, 3, 2, 100), (1, 1, 2, 2)],
+    'set_output_voltage': [(0.29, 2.01, 0.3, 2.0), (0.03, 5.0, 1.26, 1.5), (0, 5, 1, 2), (-1, 20, 2, 1)],
+    'set_offset': [(-2.1, 3.1, -2.0, 3.0), (-20.0, 30.0, 0.5, -0.04), (-20, 7, -2, 3), (-3, 4, 0, 1)],
+    'set_skew': [(-25.1e-12, 25.1e-12, -25e-12, 25e-12), (-1e-9, 1e-10, 0.0, 0.5e-12), (-1, 1, 0, 0), (-100, 100, 0, 0)],
+    'set_prbs_order': [(0, 40, 7, 31), (6, 32, 8, 10), (-1, 100, 13, 27), (1, 127, 23, 15)],
+    'set_bits_shift': [(-3, 2 ** 30 - 1, 0, 10), (-(2 ** 30 - 1), 100, 1, 2), (-1, 1, 0, 3), (-100, 100, 0, 0)],
+}
+INT_SETTERS = ('set_patt_len', 'set_prbs_order', 'set_bits_shift')
+INT_DT = ['int8', 'uint8', 'int16', 'uint16', 'int32', 'uint32', 'int64']
+FLT_DT = ['float16', 'float32', 'float64']
+
+
+def fits(vec, dt):
+    """the vector travels unchanged (integers) / rounded but finite and in order (floats) in an array of dtype dt"""
+    d = np.dtype(dt)
+    if d.kind in 'iu':
+        ii = np.iinfo(d)
+        return all(float(v) == int(v) and ii.min <= int(v) <= ii.max for v in vec)
+    if d.kind == 'b':
+        return all(v in (0, 1) for v in vec)
+    with np.errstate(over='ignore'):
+        return bool(np.all(np.isfinite(np.array(vec, dtype=np.float64).astype(d))))
+
+
+def typed_value_cases(op, tier):
+    """hardening pass: the same requests in every documented container and sample dtype (per-channel arrays), as numpy /
+    Python scalars of the other numeric types, both limits violated in one call, value lists shorter / longer than the
+    channel list"""
+    V = VECS[op]
+    out = []
+    flt = op not in INT_SETTERS
+    # (a) both limits violated in ONE per-channel list: every permutation of the nearest vector, rotations of the others
+    for perm in itertools.permutations(V[0]):
+        out.append((op, (list(perm), None)))
+    for vec in V[1:]:
+        for r in range(4):
+            out.append((op, ([vec[(r + i) % 4] for i in range(4)], None)))
+    for vec in V:
+        b, a, lo, hi = vec
+        for pair in ([b, a], [a, b], [b, hi], [lo, a], [lo, hi]):
+            for chs in ([1, 2], ('tup', (4, 1)), [0, 5], ('np', 'int64', [3, 3])):
+                out.append((op, (pair, chs)))
+    # (b) containers and dtypes of the per-channel value array
+    for vi, vec in enumerate(V):
+        for r in (0, 1):
+            v4 = [vec[(r + i) % 4] for i in range(4)]
+            out.append((op, (('tup', tuple(v4)), None)))
+            out.append((op, (('mix', v4), None)))
+            for dt in INT_DT + (FLT_DT if flt else []) + ['bool']:
+                if fits(v4, dt):
+                    out.append((op, (('np', dt, v4), None)))
+                    if dt in ('int64', 'float64', 'int8', 'float32'):
+                        out.append((op, (('np', dt, v4, 'ro'), ('np', 'int64', [4, 3, 2, 1]))))
+                        out.append((op, (('np', dt, v4[:2]), ('tup', (2, 5)))))
+            if tier == 'thorough':
+                for dt in INT_DT + (FLT_DT if flt else []):
+                    if fits(v4, dt):
+                        for chs in CHSEL[6:] + CHSEL_X[:7]:
+                            out.append((op, (('np', dt, v4[:max(1, len(chan_list(plain(chs))[0]))]), chs)))
+    if op != 'set_bits_shift':
+        out.append((op, (('np', 'bool', [1, 0, 1, 0]), None)))
+        out.append((op, (('np', 'bool', [0, 1]), ('tup', (1, 4)))))
+    # (c) scalars of other numeric types (Python int <-> float twins, numpy scalars, 0-d arrays, bool)
+    seen = set()
+    for vec in V:
+        for v in vec:
+            if v in seen:
+                continue
+            seen.add(v)
+            forms = []
+            if float(v) == int(v) and abs(v) < 2 ** 62:
+                forms += [int(v), ('nps', 'int64', int(v)), ('np0', 'int64', int(v))]
+                forms += [('nps', dt, int(v)) for dt in ('int8', 'uint8', 'int32') if fits([v], dt)]
+                if op != 'set_bits_shift':      # a float bit shift is printed as '3.0'; not a documented type, no limit stated
+                    forms += [float(v) if flt else ('len', float(v))]
+                if v in (0, 1) and op not in ('set_bits_shift', 'set_skew'):
+                    # bool is not a documented type anywhere; these two setters print the value with a bare '{}' (-> 'False'):
+                    # a bool is no request for a number of bits / seconds, the statement does not cover it
+                    forms.append(bool(v))
+            if flt:
+                forms += [float(v), ('nps', 'float64', float(v)), ('nps', 'float32', float(v)), ('np0', 'float64', float(v)),
+                          ('np0', 'float32', float(v))]
+            for f in forms:
+                for chs in (None, 2, [0, 5]):
+                    out.append((op, (f, chs)))
+    # (d) value lists shorter / longer than the channel list (0, m-1, m+1, 8 values)
+    for chs in (None, [1, 2], 3, [1, 2, 3, 4, 5], ('tup', (2, 9))):
+        m = len(chan_list(plain(chs))[0])
+        for n in sorted({0, m - 1, m + 1, 8}):
+            for r in (0, 1, 2):
+                vals = [V[r][(r + i) % 4] for i in range(n)]
+                out.append((op, (vals, chs)))
+                if n and fits(vals, 'int64' if not flt else 'float64'):
+                    out.append((op, (('np', 'int64' if not flt else 'float64', vals), chs)))
+    return out
+
+
+FREQ_X = [10 ** 10, 10 ** 12, 0, -1, 32 * 10 ** 9, 15 * 10 ** 8, 15 * 10 ** 8 - 1, 32 * 10 ** 9 + 1,
+          ('nps', 'float64', 5e10), ('nps', 'float64', 1.5e9), ('nps', 'float32', 5e10), ('nps', 'float32', 32e9),
+          ('nps', 'float32', 1.5e9), ('nps', 'float32', 1e9), ('nps', 'int64', 10 ** 12), ('nps', 'int64', 10 ** 10),
+          ('nps', 'int32', 2 * 10 ** 9), ('nps', 'int32', 10 ** 9), ('nps', 'uint8', 5), ('np0', 'float64', 5e10),
+          ('np0', 'float64', 2e9), ('np0', 'int64', 1), True, 1e300, -1e300, float('-inf'), 5e-324]
 
 
 def around(lo, hi, unit, thorough):
@@ -383,11 +577,23 @@ def single_cases(tier):
                 cases.append((op, ([vals[(j + i * 3) % len(vals)] for i in range(m)], chs)))
             cases.append((op, ([vals[0]], chs)))
             cases.append((op, ([vals[i % len(vals)] for i in range(5)], chs)))
-    for chs in CHSEL:
+    for chs in CHSEL + CHSEL_X:
         for mode in ('data', 'PRBS', 'Data', 'prbs'):
             cases.append(('set_mode', (mode, chs)))
         cases.append(('enable_outputs', (chs,)))
         cases.append(('disable_outputs', (chs,)))
+    # ---- hardening pass (appended: the simplest, documented-example-like cases above stay first)
+    for v in FREQ_X:
+        cases.append(('set_freq', (v,)))
+    for op in ['set_patt_len', 'set_output_voltage', 'set_offset', 'set_skew', 'set_prbs_order', 'set_bits_shift']:
+        vals = V[op] + [float('inf'), float('-inf'), 1e300] * (op not in INT_SETTERS) + [2 ** 62, -2 ** 62] * (op in INT_SETTERS[:2])
+        for chs in CHSEL_X:
+            for v in (vals if tier == 'thorough' else vals[:12] + vals[-3:]):
+                cases.append((op, (v, chs)))
+        for chs in CHSEL[:2]:
+            for v in vals[len(V[op]):]:
+                cases.append((op, (v, chs)))
+        cases += typed_value_cases(op, tier)
     return cases
 
 
@@ -397,24 +603,43 @@ AGG = [  # name, in-range, out-of-range (None = no out-of-range notion: second i
     ('bsh', 10, -7), ('skew', 0.5e-12, 1e-10), ('mode', 'PRBS', 'DATA'), ('order', 7, 40),
     ('data', ('arr', (0, 0, 0, 1, 1, 1, 0, 1)), ('arr', tuple(int(bg(9, i)) for i in range(1030)))),
 ]
+AGG3 = {  # level 3: per-channel forms that violate BOTH limits in one call (cut to the number of requested channels)
+    'freq': ('nps', 'float32', 5e10), 'patt_len': [1, 2 ** 24, 2, 2 ** 21], 'Vout': ('np', 'int8', [0, 5, 1, 2]),
+    'offset': ('tup', (-20, 7, -2.0, 3.0)), 'bsh': ('np', 'int64', [-7, 10, 0, 3]), 'skew': [-1e-10, 1e-10, -25e-12, 25e-12],
+    'mode': 'DATA', 'order': ('np', 'uint8', [0, 40, 7, 31]), 'data': None,
+}
 AGG_SETTER = {'patt_len': 'set_patt_len', 'Vout': 'set_output_voltage', 'offset': 'set_offset', 'bsh': 'set_bits_shift',
               'skew': 'set_skew', 'order': 'set_prbs_order'}
 
 
 def agg_case(case):
-    op, choice, chs = case          # choice: tuple of 0 absent / 1 in-range / 2 out-of-range per AGG entry
-    kw = {}
+    op, choice, chs_raw = case      # choice: tuple of 0 absent / 1 in-range / 2 out-of-range / 3 per-channel both limits
+    chs = plain(chs_raw)
+    m = min(len(chan_list(chs)[0]), NCH)
+    kw_raw = {}
     for (name, a, b), c in zip(AGG, choice):
-        if c:
-            kw[name] = a if c == 1 else b
+        if c == 3:
+            v = AGG3[name]
+            if name == 'data':          # one row per requested channel, 1030 bits each (two blocks)
+                v = ('tup', tuple(tuple(int(bg(11 + r, i)) for i in range(1030)) for r in range(m)))
+            elif _tag(v) == 'tup':
+                v = ('tup', v[1][:m])
+            elif _tag(v) == 'np':
+                v = (v[0], v[1], v[2][:m])
+            elif isinstance(v, list):
+                v = v[:m]
+            kw_raw[name] = v
+        elif c:
+            kw_raw[name] = a if c == 1 else b
+    kw = {k: plain(v) for k, v in kw_raw.items()}
     fake = Fake()
     ppg = new_ppg(fake)
     before = fake.clone()
-    call_kw = {k: as_args(v) for k, v in kw.items()}
-    call_kw['CHs'] = chs
+    call_kw = {k: as_args(v) for k, v in kw_raw.items()}
+    call_kw['CHs'] = as_args(chs_raw)
     ret, exc, nw, out = drive(ppg, op, (), call_kw)
     viol = list(fake.issues)
-    sig = f'{op}({", ".join(f"{k}={v!r}"[:40] for k, v in kw.items())}, CHs={chs!r})'
+    sig = f'{op}({", ".join(f"{k}={v!r}"[:40] for k, v in kw_raw.items())}, CHs={chs_raw!r})'
     req, ch_oor = chan_list(chs)
     any_ch_arg = any(k not in ('freq', 'order', 'data') for k in kw) or ('order' in kw and kw.get('mode') == 'PRBS') \
         or ('data' in kw and kw.get('mode') == 'DATA')
@@ -467,8 +692,8 @@ def agg_case(case):
         if op == '__call__' and ret != 'Done':
             pass    # return value is not part of the statement
     obs = (tuple(fake.log), exc[:2] if exc else None, nw > 0)
-    return res(viol=_dedup(viol), obs=obs, nontrivial=bool(2 in choice or ch_oor),
-               stats={'transitions': 1, 'commands': len(fake.log), 'oor_calls': int(oor or 2 in choice)})
+    return res(viol=_dedup(viol), obs=obs, nontrivial=bool(2 in choice or 3 in choice or ch_oor),
+               stats={'transitions': 1, 'commands': len(fake.log), 'oor_calls': int(oor or 2 in choice or 3 in choice)})
 
 
 def agg_cases(tier):
@@ -488,6 +713,13 @@ def agg_cases(tier):
                     cases.append((op, choice, chs))
         for i in range(n):                                       # exactly one argument out of range, rest in range
             cases.append(('config', tuple(2 if j == i else 1 for j in range(n)), [1, 3]))
+    # hardening pass: every subset with per-channel both-limit forms in other containers / dtypes, channel containers
+    for sub in itertools.product((0, 1), repeat=n):
+        for op, chs in (('__call__', None), ('config', ('np', 'int64', [4, 1])), ('__call__', ('tup', (0, 5)))):
+            if tier == 'thorough' or chs is None or sum(sub) <= 2 or sum(sub) >= n - 1:
+                cases.append((op, tuple(s * 3 for s in sub), chs))
+    for i in range(n):                                           # exactly one per-channel form, the rest in-range scalars
+        cases.append(('config', tuple(3 if j == i else 1 for j in range(n)), ('tup', (2, 3, 4))))
     cases.sort(key=lambda c: (sum(1 for x in c[1] if x), sum(c[1])))
     return cases
 
@@ -498,19 +730,36 @@ def bits_for(seed, L, start, nrows):
     return rng.randint(0, 2, size=(nrows, L)).astype(np.uint8)
 
 
+FORMS_1D = ['str', 'arr1d', 'str_sp', 'list1d', 'str_cm', 'bool1d', 'tup1d', 'i64_1d', 'f64_1d', 'ro1d', 'str_cs', 'f32_1d']
+FORMS_2D = ['arr2d', 'list2d', 'tup2d', 'bool2d', 'i8_2d', 'ro2d', 'f64_2d', 'rows+1', 'rows-1']
+
+
+def make_data(form, seed, L, start, nrows):
+    """the data argument of set_data in the named container / dtype / spelling; 1-D forms carry the first row (the driver
+    documents that it is written to every requested channel), 2-D forms one row per channel"""
+    if form in ('rows+1', 'rows-1'):
+        n = nrows + 1 if form == 'rows+1' else max(1, nrows - 1)
+        return bits_for(seed, L, start, n).tolist()
+    rows = bits_for(seed, L, start, nrows)
+    r0 = rows[0].tolist()
+    sep = {'str': '', 'str_sp': ' ', 'str_cm': ',', 'str_cs': ', '}
+    if form in sep:
+        return sep[form].join(map(str, r0))
+    one = {'arr1d': ('arr', tuple(r0)), 'list1d': r0, 'tup1d': ('tup', tuple(r0)), 'bool1d': ('np', 'bool', r0),
+           'i64_1d': ('np', 'int64', r0), 'f64_1d': ('np', 'float64', r0), 'f32_1d': ('np', 'float32', r0), 'ro1d': ('np', 'uint8', r0, 'ro')}
+    if form in one:
+        return one[form]
+    rl = rows.tolist()
+    two = {'arr2d': ('arr', tuple(tuple(r) for r in rl)), 'list2d': rl, 'tup2d': ('tup', tuple(tuple(r) for r in rl)),
+           'bool2d': ('np', 'bool', rl), 'i8_2d': ('np', 'int8', rl), 'f64_2d': ('np', 'float64', rl), 'ro2d': ('np', 'uint8', rl, 'ro')}
+    return two[form]
+
+
 def data_case(case):
     seed, L, start, chs, form = case
-    req, _ = chan_list(chs)
+    req, _ = chan_list(plain(chs))
     nrows = min(len(req), NCH)
-    rows = bits_for(seed, L, start, nrows)
-    if form == 'str':
-        data = ''.join(map(str, rows[0].tolist()))
-    elif form == 'arr1d':
-        data = ('arr', tuple(rows[0].tolist()))
-    elif form == 'list1d':
-        data = rows[0].tolist()
-    else:
-        data = ('arr', tuple(tuple(r) for r in rows.tolist()))
+    data = make_data(form, seed, L, start, nrows)
     fake = Fake()
     ppg = new_ppg(fake)
     viol, o1, i1 = step(fake, ppg, 'set_data', (data, start, chs))
@@ -525,12 +774,18 @@ def data_case(case):
         ndry = len(lines)
         have = {k for k, _ in viol}
         viol += [('dry-run:' + k, m) for k, m in dissues if k not in have]
-        if dexc:
+        if dexc and i1['lenient'] and dexc[0] in ('ValueError', 'TypeError'):
+            pass
+        elif dexc:
             viol.append((f'dry-run:{dexc[1]}:raises-{dexc[0]}', f'dry-run set_data(<{L} bits>, {start}, {chs!r}) raised {dexc[0]}: {dexc[2]}'))
         elif not i1['exc'] and not v1n and lines != sent:
             viol.append(('dry-run:stream-differs', f'set_data(<{L} bits>, {start}, {chs!r}): {len(lines)} printed lines differ from the {len(sent)} commands sent'))
+    if start + 3 * L >= MEM and (form in FORMS_2D or form in ('str_sp', 'str_cm', 'str_cs')):
+        # a request near the end of the memory in a form whose len() is not its bit count: own keys
+        tag = '@2-D-data-at-memory-end' if form in FORMS_2D else '@separator-string-at-memory-end'
+        viol = [(k + tag if ('set_data:' in k or k.startswith('get_data:wrong-bits')) else k, m) for k, m in viol]
     obs = (o1[1:], o2[1:], len(fake.log), tuple(c[:40] for c in fake.log[:2]), tuple(c[:40] for c in fake.log[-2:]))
-    return res(viol=_dedup(viol), obs=obs, nontrivial=bool(L > BLOCK or start != 1),
+    return res(viol=_dedup(viol), obs=obs, nontrivial=bool(L > BLOCK or start != 1 or form not in ('str', 'arr1d')),
                stats={'transitions': 2, 'commands': len(fake.log), 'dry_run_lines': ndry, 'blocks': nblocks, 'reads': fake.stats['reads'],
                       'zero_len_reads': fake.stats['zero_len_reads'], 'bits_written': L * nrows,
                       'oor_calls': int(i1['oor']) + int(i2['oor'])})
@@ -546,29 +801,99 @@ def forms_for(chs):
     return ['arr1d', 'arr2d']
 
 
+def forms_x(chs):
+    """hardening pass: every other container / dtype / spelling of the data argument"""
+    if chs is None or isinstance(chs, int):
+        return [f for f in FORMS_1D if f not in ('str', 'arr1d')]
+    return [f for f in FORMS_2D if f != 'arr2d'] + ['list1d', 'tup1d', 'bool1d']
+
+
+DATA_CH_X = [('tup', (4, 1)), ('np', 'int64', [2, 3, 1]), [0, 5], [1, 7], ('nps', 'int64', 3), [2, 2]]
+POW10 = (9, 10, 99, 100, 999, 1000)          # block lengths where the header digit count changes
+FORM_L = [1, 2, 3, 9, 10, 99, 100, 999, 1000, 1023, 1024, 1025, 2047, 2048, 2049, 3073]
+
+
 def data_cases(tier, seed):
-    long = [3071, 3072, 3073, 4096, 10000]
+    # k*1024 - 1, k*1024, k*1024 + 1 (k = 3, 4, 5, 8; 9, 10 in part) and remainders with 1/2/3/4 header digits after full blocks
+    long = [3071, 3072, 3073, 4096, 10000, 3081, 3082, 3171, 3172, 4071, 4072, 4095, 4097, 5119, 5120, 5121, 8191, 8192, 8193,
+            9215, 9216, 9217, 9999, 10239, 10240, 10241]
+    if tier == 'thorough':
+        long += [6143, 6144, 6145, 7167, 7168, 7169, 9225, 9226, 9315, 9316, 10215, 10216]
     cases = []
     lengths = list(range(1, 2101)) + long
     for L in lengths:
         for si, start in enumerate(STARTS):
-            boundary = L % BLOCK in (0, 1, BLOCK - 1) or L in (1, 2) or L > 2100
+            boundary = L % BLOCK in (0, 1, BLOCK - 1) or L in (1, 2) or L > 2100 or L % BLOCK in POW10
             for ci, chs in enumerate(DATA_CH):
                 fs = forms_for(chs)
+                fx = forms_x(chs)
                 if tier == 'thorough':
-                    use = fs + (['list1d'] if chs == 2 else [])
+                    use = fs + (['list1d'] if chs == 2 else []) + [fx[(L + si + j) % len(fx)] for j in (0, 1)]
                 elif boundary:
                     use = fs                               # block boundaries: full product, both forms
+                    if L <= 2100 or si in (0, 4):
+                        use = use + [fx[(L // BLOCK + L % BLOCK + si) % len(fx)]]
                 elif (L + si) % len(DATA_CH) == ci:
                     use = [fs[(L // 3 + si) % 2]]          # elsewhere channel sets and forms rotate over L and start
+                    use.append(fx[(L // 3 + si) % len(fx)])   # ... and so do the other containers / dtypes / spellings
                 else:
                     use = []
                 for f in use:
                     cases.append((seed, L, start, chs, f))
-    # end of the memory: the request does not fit; the driver documents truncation with a warning
+    # forms x lengths (the conversion of the argument is independent of the block splitting: special lengths only)
+    for L in FORM_L:
+        for start in (1, 1000):
+            for chs in DATA_CH:
+                for f in forms_x(chs) + (['arr2d', 'list2d', 'rows+1', 'rows-1'] if chs is None else []):
+                    cases.append((seed, L, start, chs, f))
+    # channel containers / mixed valid+invalid channel lists
+    for L in (1, 10, 1000, 1024, 1025, 2049):
+        for chs in DATA_CH_X:
+            m = len(chan_list(plain(chs))[0])
+            for f in (['arr1d', 'str'] if m == 1 else ['arr1d', 'arr2d', 'list2d']):
+                cases.append((seed, L, 2, chs, f))
+    # end of the memory: data ending one cell before / exactly on / one and five cells after the last cell (the part that
+    # does not fit is documented to be cut with a warning), every block-boundary length, every kind of form
     for L, start in [(1, MEM), (2, MEM), (300, MEM - 100), (1025, MEM - 1024), (1500, MEM - 1100), (2048, MEM - 2047)]:
         for chs in DATA_CH[:2]:
             cases.append((seed, L, start, chs, 'arr1d'))
+    for L in (1, 2, 3, 10, 1000, 1023, 1024, 1025, 2047, 2048, 2049, 3073):
+        for over in (-1, 0, 1, 5):
+            start = MEM + over - L + 1
+            if start > MEM:
+                continue
+            for chs in DATA_CH:
+                fl = ['arr1d', 'str', 'str_sp', 'list1d', 'ro1d'] if not isinstance(chs, list) else ['arr1d', 'arr2d', 'list2d', 'ro2d', 'rows+1']
+                for f in fl:
+                    cases.append((seed, L, start, chs, f))
+    return cases
+
+
+# ------------------------------------------------------------------ part: reads of 1..3 blocks from every start-address class
+def getsweep_case(case):
+    seed, size, start, chs = case
+    fake = Fake()
+    ppg = new_ppg(fake)
+    n = plain(size)
+    s_req = start if isinstance(start, int) else MEM - n + 1 + {'end-1': -1, 'end': 0, 'end+1': 1}[start]
+    s_c = clamp(s_req, 1, MEM)
+    w0 = clamp(s_c - 700, 1, MEM - 1499)            # 1500 known bits around the first address read, the rest is background
+    rows = bits_for(seed, 1500, w0, 1)
+    viol, o1, _ = step(fake, ppg, 'set_data', (('arr', tuple(rows[0].tolist())), w0, None))
+    v2, o2, i2 = step(fake, ppg, 'get_data', (size, s_req, chs))
+    viol += v2
+    return res(viol=_dedup(viol), obs=(o2, fake.stats['reads']), nontrivial=True,
+               stats={'transitions': 2, 'commands': len(fake.log), 'reads': fake.stats['reads'], 'zero_len_reads': fake.stats['zero_len_reads'],
+                      'oor_calls': int(i2['oor'])})
+
+
+def getsweep_cases(tier, seed):
+    sizes = [1, 2, 1023, 1024, 1025, 2047, 2048, 2049, 3071, 3072, 3073, 0, -1]
+    starts = [1, 2, 1023, 1024, 1025, 2048, 2049, 'end-1', 'end', 'end+1', MEM, 0, -5, MEM + 1]
+    chsel = [None, 2, [1, 3], ('tup', (4, 1)), [0, 5], ('np', 'int64', [2, 2])]
+    cases = [(seed, n, s, c) for n in sizes for s in starts for c in chsel if not (n < 1 and not isinstance(s, int))]
+    for n in (('nps', 'int64', 5), ('nps', 'int32', 1024), ('len', 1024.0), True):      # undocumented size types
+        cases += [(seed, n, 1, c) for c in chsel[:3]]
     return cases
 
 
@@ -617,6 +942,75 @@ def overlap_cases(tier, seed):
     return cases
 
 
+# ------------------------------------------------------------------ part: results of one call fed to the next
+CHAIN_REG = [('set_patt_len', 'get_patt_len', [1000, [1, 2 ** 24, 5, 2 ** 21]]),
+             ('set_output_voltage', 'get_output_voltage', [1.26, [0.03, 5.0, 0.3, 2.0]]),
+             ('set_offset', 'get_offset', [-0.04, [-20, 7, -2.0, 3.0]]),
+             ('set_skew', 'get_skew', [0.5e-12, [-1e-9, 1e-10, -25e-12, 25e-12]]),
+             ('set_prbs_order', 'get_prbs_order', [15, [0, 40, 8, 23]]),
+             ('set_bits_shift', 'get_bits_shift', [10, [-3, 2 ** 30 - 1, 0, 7]])]
+CHAIN_CH = [(None, None), ([1, 2], [3, 4]), ([0, 5], ('tup', (2, 3))), (3, 1), ([4, 3, 2, 1], None)]
+
+
+def chain_case(case):
+    """set X on channels A; Y = get X(A); set X(Y) on channels B with the RETURNED container (ndarray of whatever dtype the
+    driver returns), then with its first element (a numpy scalar); get X(B).  Same for the pattern memory."""
+    kind = case[0]
+    fake = Fake()
+    ppg = new_ppg(fake)
+    viol, obs, ntr = [], [], 0
+
+    def do(op, args):
+        nonlocal ntr
+        v, o, info = step(fake, ppg, op, args)
+        viol.extend(v)
+        obs.append(o[1:])
+        ntr += 1
+        return info
+    if kind == 'reg':
+        _, sop, gop, val, cha, chb = case
+        do(sop, (val, cha))
+        r = do(gop, (cha,))['ret']
+        if isinstance(r, np.ndarray) and r.dtype != object and r.size:
+            nb = min(len(chan_list(plain(chb))[0]), NCH)
+            back = ('np', str(r.dtype), r.tolist()[:nb] if nb <= r.size else (r.tolist() * 4)[:nb])
+            do(sop, (back, chb))
+            do(gop, (chb,))
+            do(sop, (('nps', str(r.dtype), r.tolist()[0]), chb))      # the returned numpy scalar
+            do(gop, (None,))
+    else:
+        _, seed, L, s1, s2, cha, chb = case
+        na = min(len(chan_list(plain(cha))[0]), NCH)
+        rows = bits_for(seed, L, s1, na)
+        do('set_data', (('arr', tuple(tuple(r) for r in rows.tolist())), s1, cha))
+        r = do('get_data', (L, s1, cha))['ret']
+        if isinstance(r, np.ndarray) and r.dtype != object and r.ndim == 2:
+            do('set_data', (('np', str(r.dtype), r.tolist()), s2, chb))       # the returned 2-D array as the next data
+            do('get_data', (L, s2, chb))
+            do('set_data', (('np', str(r.dtype), r[0].tolist()), s2 + L, chb))  # one returned row for all channels, adjacent
+            do('get_data', (2 * L, s2, chb))
+    return res(viol=_dedup(viol), obs=tuple(obs), nontrivial=True,
+               stats={'transitions': ntr, 'commands': len(fake.log), 'blocks': fake.stats['blocks'], 'reads': fake.stats['reads']})
+
+
+def chain_cases(tier, seed):
+    cases = []
+    for sop, gop, vals in CHAIN_REG:
+        for v in vals:
+            for cha, chb in CHAIN_CH:
+                if isinstance(v, list):
+                    v_ = v[:min(len(chan_list(plain(cha))[0]), NCH)]
+                else:
+                    v_ = v
+                cases.append(('reg', sop, gop, v_, cha, chb))
+    Ls = [1, 2, 10, 1000, 1024, 1025, 2049] if tier == 'quick' else [1, 2, 9, 10, 99, 100, 999, 1000, 1023, 1024, 1025, 2047, 2048, 2049, 3073]
+    for L in Ls:
+        for s1, s2 in ((1, 1), (1, 5000), (1000, 1025), (1024, 2)):
+            for cha, chb in (([1, 2], [3, 4]), (None, None), ([1, 3], ('tup', (2, 4))), ([2, 4], ('np', 'int64', [4, 2]))):
+                cases.append(('data', seed, L, s1, s2, cha, chb))
+    return cases
+
+
 # ------------------------------------------------------------------ part: BFS over call sequences
 def bfs_actions(tier):
     d5 = '01101'
@@ -637,6 +1031,9 @@ def bfs_actions(tier):
         ('get_freq', ()), ('get_patt_len', (None,)), ('get_output_voltage', ([1, 2],)), ('get_offset', (None,)),
         ('get_skew', (5,)), ('get_mode', (None,)), ('get_prbs_order', (None,)), ('get_bits_shift', ([2, 2],)),
         ('get_data', (8, 1, None)), ('get_data', (1030, 1000, [1, 3])), ('get_data', (2048, 2, 2)),
+        # hardening pass: other containers / dtypes inside call sequences
+        ('set_offset', (('np', 'int8', [-20, 7]), ('tup', (2, 3)))), ('set_skew', (('np', 'float64', [-1e-9, 1e-10], 'ro'), [1, 4])),
+        ('set_data', (('tup', ((1, 0, 1, 1), (0, 0, 1, 0))), 1023, ('np', 'int64', [3, 1]))), ('get_data', (1025, 1023, ('tup', (1, 3)))),
     ]
     if tier == 'thorough':
         acts += [('set_freq', (1.5e9,)), ('set_output_voltage', (0.0, 1)), ('set_offset', (-2.0, 4)),
@@ -743,58 +1140,156 @@ def run_bfs(ctx):
 
 
 # ------------------------------------------------------------------ part: SYNC
+import functools
+
+PRBS_TAPS = {7: (7, 6), 9: (9, 5), 11: (11, 9), 15: (15, 14)}      # x^7+x^6+1, x^9+x^5+1, x^11+x^9+1, x^15+x^14+1
+
+
+@functools.lru_cache(maxsize=None)
+def _prbs(n):
+    a, b = PRBS_TAPS[n]
+    s = [1] + [0] * (n - 1)
+    out = []
+    for _ in range(2 ** n - 1):
+        out.append(s[a - 1])
+        s = [s[a - 1] ^ s[b - 1]] + s[:n - 1]
+    o = np.array(out, dtype=int)
+    if int(o.sum()) != 2 ** (n - 1) or any(np.array_equal(o, np.roll(o, k)) for k in (1, 2, 3, (2 ** n - 1) // 3)):
+        raise HarnessBug(f'own PRBS{n} generator is not maximal-length')
+    return o
+
+
+def prbs(n=7):
+    """own LFSR, one period of 2^n - 1 slots"""
+    return _prbs(n).copy()
+
+
 def prbs7():
     """x^7 + x^6 + 1, 127 slots"""
-    s = [1, 0, 0, 0, 0, 0, 0]
-    out = []
-    for _ in range(127):
-        out.append(s[6])
-        s = [s[6] ^ s[5]] + s[:6]
-    return np.array(out, dtype=int)
+    return prbs(7)
+
+
+# record dtypes: how a digitiser would deliver the same waveform (scale, offset -> dtype)
+RX_DT = {'i8': (50, 0, np.int8), 'u8': (60, 60, np.uint8), 'i16': (100, 0, np.int16), 'u16': (1000, 5000, np.uint16),
+         'i32': (10000, 0, np.int32), 'i64': (10 ** 6, 0, np.int64), 'f16': (1, 0, np.float16), 'f32': (1, 0, np.float32),
+         'c64': (1, 0, np.complex64), 'c128': (1, 0, np.complex128), 'bool': (1, 0, np.bool_)}
+SLOT_DT = {'sb': np.bool_, 'su8': np.uint8, 'si64': np.int64, 'sf64': np.float64, 'sf32': np.float32}
+TOLERATED_FORMS = ('slist', 'stup', 'rxlist', 'spsf')     # containers / types SYNC's signature does not list
 
 
 def sync_case(case):
+    """case = (seed, sps, d, form, k)  or  (seed, sps, d, form, k, pat, nspec, var)
+       pat    PRBS order of the slot pattern
+       nspec  record length: ('rep', r) = r pattern lengths; 'l+d' = the record ends with the first complete pattern;
+              'l+d+1', '2l-1', '2l', '2l+1'
+       var    None | ('scale', f) | ('dc', offset) | ('gv', how) | 'twice'"""
     from opticomlib.lab import SYNC
-    from opticomlib.typing import electrical_signal, binary_sequence
-    seed, sps, d, form, k = case
-    p = prbs7()
+    from opticomlib.typing import electrical_signal, binary_sequence, gv
+    seed, sps, d, form, k = case[:5]
+    pat, nspec, var = case[5:] if len(case) > 5 else (7, ('rep', 3), None)
+    p = prbs(pat)
     tx = np.kron(p, np.ones(sps))
     l = tx.size
-    gv_reset(sps=sps)
-    if k < 0:
-        noise = np.zeros(3 * l)
+    n = {'l+d': l + d, 'l+d+1': l + d + 1, '2l-1': 2 * l - 1, '2l': 2 * l, '2l+1': 2 * l + 1}[nspec] if isinstance(nspec, str) else nspec[1] * l
+    if var is not None and var[0] == 'gv':
+        if var[1] == 'Rfs':             # the same sps configured through (R, fs)
+            gv_reset(R=1e9, fs=sps * 1e9)
+        elif var[1] == 'Rfs-nonint':    # non-integer R and fs with an integer ratio
+            gv_reset(R=1.25e9 + 0.5, fs=sps * (1.25e9 + 0.5))
+        else:                           # the grid says something else than the sps argument (ndarray forms only)
+            gv_reset(sps=16)
     else:
-        noise = np.random.RandomState([seed & 0x7FFFFFFF, sps, d, k]).normal(0, 0.1, 3 * l)
-    if form == 'pad':        # delayed with d leading zero samples (nothing transmitted yet), three repetitions follow
-        rx = np.concatenate([np.zeros(d), np.tile(tx, 3)])[:3 * l] + noise
+        gv_reset(sps=sps)
+    reps = n // l + 2
+    if k < 0:
+        noise = np.zeros(n)
+    else:
+        noise = np.random.RandomState([seed & 0x7FFFFFFF, pat, sps, d, k]).normal(0, 0.1, n)
+    if form == 'pad':        # delayed with d leading zero samples (nothing transmitted yet), repetitions follow
+        clean = np.concatenate([np.zeros(d), np.tile(tx, reps)])[:n]
     else:                    # steady state: the periodic waveform delayed by d samples
-        rx = np.roll(np.tile(tx, 3), d) + noise
-    pat = p
-    if form in ('i16', 'u8'):   # digitised records: ADC counts (int16) / raw scope bytes (uint8), uint8 slot pattern
-        rx = np.round(rx * 100).astype(np.int16) if form == 'i16' else np.clip(np.round((rx + 1.0) * 60), 0, 255).astype(np.uint8)
-        pat = np.asarray(p, dtype=np.uint8)
-    rx.flags.writeable = False
-    viol = []
-    sig = f'SYNC(rx=3x PRBS7 waveform {"zero-padded" if form == "pad" else "cyclically"} delayed by d={d}, sps={sps}, noise#{k}, {form})'
-    cls = 'd=0' if d == 0 else 'd>0'
-    try:
-        if form == 'es':
-            out, i = SYNC(electrical_signal(rx), binary_sequence(p))
+        clean = np.roll(np.tile(tx, reps), d)[:n]
+    if var is not None and var[0] == 'scale':
+        clean, noise = clean * var[1], noise * var[1]
+    if var is not None and var[0] == 'dc':          # large offset, small swing (noise in proportion)
+        clean, noise = var[1] + 0.01 * clean, 0.01 * noise
+    rx = clean + noise
+    pat_arg = p
+    if form in RX_DT:       # digitised records: ADC counts / raw scope bytes / narrower floats, uint8 slot pattern
+        sc, off, dt = RX_DT[form]
+        if np.dtype(dt).kind in 'iu':
+            ii = np.iinfo(dt)
+            rx = np.clip(np.round(rx * sc + off), ii.min, ii.max).astype(dt)
+        elif dt is np.bool_:
+            rx = clean.astype(bool)
         else:
-            out, i = SYNC(rx, pat, sps)
+            rx = rx.astype(dt)
+        pat_arg = np.asarray(p, dtype=np.uint8)
+    if form in SLOT_DT:
+        pat_arg = p.astype(SLOT_DT[form])
+    rx.flags.writeable = False
+    pat_arg.flags.writeable = False
+    rx_copy, pat_copy = rx.copy(), pat_arg.copy()
+    viol = []
+    sig = (f'SYNC(rx={n} samples of the PRBS{pat} waveform {"zero-padded" if form == "pad" else "cyclically"} delayed by d={d}, sps={sps}, '
+           f'noise#{k}, {form}{"" if var is None else ", " + repr(var)})')
+    cls = 'd=0' if d == 0 else 'd>0'
+    noise_part = None
+
+    def call():
+        nonlocal noise_part
+        if form == 'es':
+            return SYNC(electrical_signal(rx), binary_sequence(p))
+        if form == 'esn':       # the library's own class with the noise in its noise component
+            noise_part = noise
+            return SYNC(electrical_signal(clean, noise), binary_sequence(p))
+        if form == 'esnd':
+            return SYNC(electrical_signal(rx), pat_arg)
+        if form == 'essps':     # an sps argument next to an electrical_signal (which carries its own) - a wrong one
+            return SYNC(electrical_signal(rx), binary_sequence(p), sps + 1)
+        if form == 'bsnd':
+            return SYNC(rx, binary_sequence(p), sps)
+        if form == 'slist':
+            return SYNC(rx, p.tolist(), sps)
+        if form == 'stup':
+            return SYNC(rx, tuple(p.tolist()), sps)
+        if form == 'rxlist':
+            return SYNC(rx.tolist(), p, sps)
+        if form == 'spsf':
+            return SYNC(rx, p, float(sps))
+        if form == 'spsnp':
+            return SYNC(rx, pat_arg, np.int64(sps))
+        if form == 'kw':
+            return SYNC(signal_rx=rx, slots_tx=pat_arg, sps=sps)
+        return SYNC(rx, pat_arg, sps)
+    try:
+        out, i = call()
+        if var == 'twice':      # the same objects again: same answer
+            out2, i2 = call()
+            if int(i2) != int(i) or not np.array_equal(np.asarray(out2.signal), np.asarray(out.signal)):
+                viol.append((f'SYNC:second-call-differs:{cls}', f'{sig}: second call with the same objects returned index {int(i2)} after {int(i)}'))
     except Exception as e:  # noqa
         if _lab_fn(e.__traceback__) is None:
             raise
+        if form in TOLERATED_FORMS and isinstance(e, (TypeError, ValueError)):
+            return res(viol=[], obs=('EXC-tolerated', type(e).__name__), nontrivial=d > 0, stats={'sync_calls': 1})
         viol.append((f'SYNC:raises-{type(e).__name__}:{cls}', f'{sig} raised {type(e).__name__}: {str(e)[:120]}'))
         return res(viol=viol, obs=('EXC', type(e).__name__), nontrivial=d > 0, stats={'sync_calls': 1})
     i = int(i)
     if i != d:
         viol.append((f'SYNC:index:{cls}', f'{sig} returned index {i}, expected {d}'))
     s = np.asarray(out.signal)
-    if s.size == 0 or s.size > rx.size - i or not np.array_equal(s, rx[i:i + s.size]):
+    ref = clean if form == 'esn' else rx
+    if s.size == 0 or s.size > ref.size - i or not np.array_equal(s, ref[i:i + s.size]):
         viol.append((f'SYNC:signal-not-rx-from-index:{cls}', f'{sig}: returned signal ({s.size} samples) is not rx[{i}:{i}+{s.size}]'))
     elif i == d and s.size < l:
         pass    # length of the synchronised record is not part of the statement
+    if noise_part is not None and getattr(out, 'noise', None) is not None:     # a noise component, if kept, must be cut alike
+        nz = np.asarray(out.noise)
+        if nz.size != s.size or not np.array_equal(nz, noise_part[i:i + nz.size]):
+            viol.append((f'SYNC:noise-not-rx-noise-from-index:{cls}', f'{sig}: returned noise component is not rx.noise[{i}:{i}+{nz.size}]'))
+    if not (np.array_equal(rx, rx_copy) and np.array_equal(pat_arg, pat_copy)):
+        viol.append((f'SYNC:modifies-argument:{cls}', f'{sig}: an argument array was modified'))
     return res(viol=viol, obs=(i, s.size, float(np.round(s[:4].real.sum(), 6)) if s.size else None),
                nontrivial=d > 0, stats={'sync_calls': 1})
 
@@ -802,14 +1297,21 @@ def sync_case(case):
 def sync_short_case(case):
     from opticomlib.lab import SYNC
     from opticomlib.typing import electrical_signal, binary_sequence
-    seed, sps, n, form = case
-    p = prbs7()
+    seed, sps, n, form = case[:4]
+    pat = case[4] if len(case) > 4 else 7
+    p = prbs(pat)
     tx = np.kron(p, np.ones(sps))
     gv_reset(sps=sps)
     rx = np.tile(tx, 1)[:n] + np.random.RandomState([seed & 0x7FFFFFFF, sps, n]).normal(0, 0.1, n)
     try:
         if form == 'es' and n >= 1:
             SYNC(electrical_signal(rx), binary_sequence(p))
+        elif form == 'esn' and n >= 1:
+            SYNC(electrical_signal(rx, 0.1 * rx), binary_sequence(p))
+        elif form == 'i16':
+            SYNC(np.round(100 * rx).astype(np.int16), p.astype(np.uint8), sps)
+        elif form == 'f32':
+            SYNC(rx.astype(np.float32), binary_sequence(p), sps)
         else:
             SYNC(rx, p, sps)
     except BufferError:
@@ -824,7 +1326,8 @@ def sync_short_case(case):
 
 
 def sync_cases(tier, seed):
-    K = 4 if tier == 'quick' else 16
+    th = tier == 'thorough'
+    K = 16 if th else 4
     cases = []
     for sps in (2, 4):
         for d in range(127 * sps):
@@ -834,7 +1337,58 @@ def sync_cases(tier, seed):
             for form in ('i16', 'u8'):          # integer-dtype records (one noise field each)
                 cases.append((seed, sps, d, form, 0))
     cases.sort(key=lambda c: (c[2], c[1], c[4], c[3]))
+    # ---- hardening pass: one deviation at a time from the base case, EVERY delay d in [0, l) for each
+    x = []
+    base3 = ('rep', 3)
+    for sps in (1, 2, 3, 4, 8):                                       # sps = 1 and odd sps; PRBS7
+        l = 127 * sps
+        for d in range(l):
+            if sps in (1, 3, 8):
+                for form in ('nd', 'es', 'pad'):
+                    for k in ((-1, 0, 1) if not th else [-1] + list(range(8))):
+                        x.append((seed, sps, d, form, k, 7, base3, None))
+            # record dtypes, slot dtypes, the library's classes in every combination, call spellings
+            for form in list(RX_DT) + list(SLOT_DT) + ['esn', 'esnd', 'essps', 'bsnd', 'spsnp', 'kw'] + list(TOLERATED_FORMS):
+                if sps in (1, 2, 3) or th:
+                    x.append((seed, sps, d, form, -1 if form == 'bool' else 0, 7, base3, None))
+            # record lengths: exactly two pattern lengths, one sample less / more, 5 lengths, just the first complete pattern
+            for nspec in (('rep', 2), '2l-1', '2l+1', ('rep', 5), 'l+d', 'l+d+1') if (sps in (1, 2, 3) or th) else ():
+                if nspec == 'l+d' and d == 0:
+                    continue        # a record of exactly one pattern length: not "longer", not "shorter" - statement silent
+                for form in ('nd', 'es') + (('pad',) if isinstance(nspec, tuple) else ()):
+                    for k in (-1, 0):
+                        x.append((seed, sps, d, form, k, 7, nspec, None))
+            # amplitude scale, large offset with a small swing, grid histories, repeated call with the same objects
+            if sps in (1, 2) or th:
+                for var in (('scale', 1e-9), ('scale', 1e-6), ('scale', 1e6), ('dc', 1000.0), ('dc', 1e6), 'twice'):
+                    x.append((seed, sps, d, 'nd', 0, 7, base3, var))
+                for var in (('gv', 'Rfs'), ('gv', 'Rfs-nonint')):
+                    x.append((seed, sps, d, 'es', 0, 7, base3, var))
+                    x.append((seed, sps, d, 'esn', 1, 7, ('rep', 2), var))
+                x.append((seed, sps, d, 'nd', 0, 7, base3, ('gv', 'other')))
+                x.append((seed, sps, d, 'i16', 1, 7, ('rep', 2), ('gv', 'other')))
+    # patterns of other lengths: PRBS9 every delay; PRBS11 / PRBS15 every delay in the thorough tier, a thinned set in quick
+    for pat, spss in ((9, (1, 2)), (11, (1,)), (15, (1,))):
+        for sps in spss:
+            l = (2 ** pat - 1) * sps
+            if pat == 9 or (th and pat == 11):
+                ds = range(l)
+            else:
+                step_ = (13 if pat == 11 else 997) if not th else 97
+                ds = sorted(set(range(0, l, step_)) | {0, 1, 2, sps, l // 2, l - sps, l - 2, l - 1})
+            for d in ds:
+                for form, k, nspec in (('nd', -1, base3), ('nd', 0, ('rep', 2)), ('es', 1, base3), ('pad', 0, base3), ('i16', 0, ('rep', 2)),
+                                       ('u8', 1, base3), ('f32', 0, '2l-1'), ('esn', 0, ('rep', 2))):
+                    if pat == 15 and form not in ('nd', 'i16', 'es'):
+                        continue
+                    x.append((seed, sps, d, form, k, pat, nspec, None))
+    x.sort(key=lambda c: (c[5], c[2], c[1]))
+    cases += x
     short = [(seed, sps, n, form) for sps in (2, 4) for n in range(0, 127 * sps) for form in ('nd', 'es')]
+    short += [(seed, sps, n, form) for sps in (1, 3) for n in range(0, 127 * sps) for form in ('nd', 'es', 'i16')]
+    short += [(seed, 2, n, form) for n in range(0, 254) for form in ('esn', 'f32')]
+    short += [(seed, sps, n, form, 9) for sps in (1, 2) for n in sorted(set(range(0, 511 * sps, 7)) | {1, 2, 511 * sps - 2, 511 * sps - 1})
+              for form in ('nd', 'es', 'i16')]
     return cases, short
 
 
@@ -848,8 +1402,19 @@ REGRESS_DATA = [(0, 1025, 1, 1, 'str'), (0, 2048, 1, 1, 'str')]   # #21
 
 
 def run(ctx):
+    import time
     seed = ctx.seed
     tier = ctx.tier
+    _pmap = ctx.pmap
+
+    def timed_pmap(part, fn, cases, **kw):      # wall time per part goes to the log and the evidence file
+        t0 = time.time()
+        out = _pmap(part, fn, cases, **kw)
+        if not part.startswith('bfs'):
+            ctx.extra.setdefault('wall_s', {})[part] = round(time.time() - t0, 1)
+            print(f'[C20] part {part}: {len(cases)} cases in {time.time() - t0:.1f} s', flush=True)
+        return out
+    ctx.pmap = timed_pmap
     ctx.assume('the instrument is simulated from the SCPI grammar the driver itself uses and the limits in the property text; '
                'real firmware responses are not available')
     ctx.assume('a zero-length read is answered with the empty block "#10" (most lenient instrument)')
@@ -861,7 +1426,17 @@ def run(ctx):
              'same call in dry-run mode; agg: subsets of the 9 aggregate arguments x {in,out of range}; data: every length '
              '1..2100 + {3071,3072,3073,4096,10000} x 5 start addresses x 3 channel sets (+ end of memory); overlap: two '
              'overlapping writes then reads; bfs: breadth-first search over call sequences with canonical instrument state; '
-             'sync: every delay d in [0,127*sps) x sps{2,4} x 3 input forms x noise fields')
+             'sync: every delay d in [0,127*sps) x sps{2,4} x 3 input forms x noise fields; '
+             'hardening pass: the same requests in every documented container and sample dtype (tuple, ndarray int8..int64 / '
+             'float16..64 / bool, read-only arrays, numpy scalars, 0-d arrays), per-channel lists violating both limits, value '
+             'lists shorter/longer than the channel list, mixed valid+invalid / empty / >4 channel lists; data in every '
+             'spelling (separator strings, list/tuple/bool/int/float arrays, 2-D per-channel forms with one row more/less), '
+             'header digit boundaries 9/10, 99/100, 999/1000, k*1024+-1 up to 10241, data ending one cell before / on / after the '
+             'last memory cell; getsweep: reads of 1..3 blocks (+-1 bit) from every start-address class incl. out-of-range '
+             'start/size; chain: returned arrays and numpy scalars fed to the next call; sync: one deviation at a time over '
+             'every delay: sps {1,3,8}, record dtypes int8..int64/float16/float32/complex/bool, slot dtypes, library classes with '
+             'a noise component, record lengths 2l-1/2l/2l+1/5l/l+d/l+d+1, amplitude scale 1e-9..1e6, offset 1e3/1e6, grid '
+             'configured through (R,fs), PRBS9/11/15')
     for c in REGRESS_SINGLE:
         ctx.run_case('regress', single_case, c)
     for c in REGRESS_DATA:
@@ -875,7 +1450,14 @@ def run(ctx):
     ctx.pmap('data', data_case, dc, horizon=60)
     oc = overlap_cases(tier, seed)
     ctx.pmap('overlap', overlap_case, oc, horizon=60)
+    gc = getsweep_cases(tier, seed)
+    ctx.pmap('getsweep', getsweep_case, gc, horizon=60)
+    cc = chain_cases(tier, seed)
+    ctx.pmap('chain', chain_case, cc, horizon=60)
+    t0 = time.time()
     states, transitions, closed, depth = run_bfs(ctx)
+    ctx.extra.setdefault('wall_s', {})['bfs'] = round(time.time() - t0, 1)
+    print(f'[C20] part bfs: {time.time() - t0:.1f} s', flush=True)
     if not closed:
         ctx.rule(f'bfs is depth-bounded at {depth} (the state space is a product of register values; closure is not the goal)')
     yc, ys = sync_cases(tier, seed)
@@ -884,6 +1466,6 @@ def run(ctx):
 
     tr_other = ctx.stats.get('transitions', 0) - transitions   # stats also counted the bfs transitions
     ctx.graph(states=states, transitions=ctx.stats.get('transitions', 0))
-    ctx.extra['sizes'] = {'single': len(sc), 'agg': len(ac), 'data': len(dc), 'overlap': len(oc), 'sync': len(yc),
+    ctx.extra['sizes'] = {'single': len(sc), 'agg': len(ac), 'data': len(dc), 'overlap': len(oc), 'getsweep': len(gc), 'chain': len(cc), 'sync': len(yc),
                           'sync_short': len(ys), 'bfs_states': states, 'bfs_transitions': transitions,
                           'non_bfs_transitions': tr_other}
